@@ -32,15 +32,21 @@ trusted runtime residue.  The theorems below discharge that residue down to the 
 4. `thread::spawn` does not fail; a thread that was not scheduled yet behaves like one that has not taken a step.
 5. `println!` in W does not panic (stdout stays open) — a panicking W would still be joined (`_ = write_handle.join()`).
 6. The `AtomicBool` of the `CancellationToken` is set once and never reset; S reads it only inside `analyze_iterative`.
-7. Scheduling is weakly fair for unblocked threads, and a search whose flag is set returns (C04: `C04_stop_bound`
-   bounds the counted nodes per worker and iteration; that some iteration reaches a poll is C04's stated hypothesis).
-   These two are the fairness assumptions `Act.fair` of the liveness theorem and of nothing else.
+7. Scheduling is weakly fair for unblocked threads, and a search whose flag is set returns: the `Relaxed` store becomes
+   visible to the loading thread, and some iteration reaches a poll (C04: `C04_stop_bound` bounds the counted nodes per
+   worker and iteration; that some iteration reaches a poll is C04's stated hypothesis, S3 in DESIGN §0.3).
+   These are the fairness assumptions `Act.fair` of the three liveness theorems (`Threads_wait_cancel_ends`,
+   `Threads_wait_cancel_returns`, `Threads_search_answers`) and of nothing else; every other theorem is a safety
+   theorem about every reachable state and needs no fairness.
 
-Register under C04: `Threads_send_stop_never_panics`, `Threads_no_deadlock`, `Threads_wait_cancel_returns`,
+Not covered: more than one search alive at a time (the command loop joins the running search before it spawns the next,
+`Uci.step`), the process exit (`quit` joins first; T is then killed with the process), W's or T's own panics.
+
+Register under C04: `Threads_send_stop_never_panics`, `Threads_no_deadlock`, `Threads_wait_cancel_returns`, `Threads_wait_cancel_ends`, `Threads_search_answers`, `Threads_trigger`,
 `Threads_receiver_dropped`, `Threads_search_panic_tolerated`, `Threads_preF8_aborts`, `Threads_timer_harmless`,
 `Threads_stop_idempotent`, `Threads_recv_never_errs`, `Threads_terminal_states`.
 Register under C07: `Threads_bestmove_at_most_once`, `Threads_bestmove_before_return`, `Threads_nothing_after_return`,
-`Threads_bestmove_is_last_best`, `Threads_join_result`, `Threads_refines_writer`, `Threads_refines_session`.
+`Threads_bestmove_is_last_best`, `Threads_bestmove_exactly_one`, `Threads_join_result`, `Threads_refines_writer`, `Threads_refines_session`.
 -/
 namespace Wee.Threads
 open Wee.Fair
@@ -142,6 +148,49 @@ theorem Threads_wait_cancel_returns (writer timer : Bool) (e : Exec (step true (
       e.invariant (Inv true) (h0 ▸ inv_init true writer timer) (fun s a s' hi hs => inv_step hi hs) j
     exact absurd h (hI.aborted rfl)
 
+/-- every state of an execution from the initial state is reachable -/
+theorem exec_reachable {f8 writer timer : Bool} (e : Exec (step f8 (μ := μ) (π := π)))
+    (h0 : e.st 0 = init writer timer) (i : Nat) : Reachable f8 writer timer (e.st i) :=
+  e.invariant (Reachable f8 writer timer) (h0 ▸ Reachable.init) (fun _ a _ hr hs => Reachable.step a hr hs) i
+
+/-- **Threads_trigger.**  What makes the stop condition of a search occur (`Triggered`): the timer firing, M's `Stop`,
+the search ending by itself or on the flag, or its panic. -/
+theorem Threads_trigger {f8 writer timer : Bool} {s s' : St μ π} (h : Reachable f8 writer timer s) (a : Act μ π)
+    (ha : a = .tFire ∨ a = .mCall ∨ a = .sEndSelf ∨ a = .sNotice ∨ a = .sPanic) (hs : step f8 s a = some s') :
+    Triggered s' := by
+  have hi := inv_reachable h
+  have h1 := hi.rx2_iff
+  have h2 := hi.flag_iff
+  have h3 := hi.c_done
+  obtain ⟨m, c, ss, w, t, sOk, cOk, art, q1, sink, rx1, q2, tx2, tx3, tt, rx2, flag, best, em, co, pr, sf, inj, re⟩ := s
+  simp only at h1 h2 h3
+  rcases ha with rfl | rfl | rfl | rfl | rfl <;>
+    (unfold step at hs; simp only at hs; (repeat' split at hs) <;> (try cases hs)) <;>
+    (cases c <;> simp_all [Triggered])
+
+/-- **Threads_search_answers** (liveness without M; the code as it stands).  Once the stop condition of the search has
+occurred — the timer fired (`go movetime`, or the default 4 s), or `Stop` was sent, or the search ended by itself
+(`go depth n`, mate) or panicked: `Threads_trigger` — then on every weakly fair execution, WITHOUT any further command
+from the user, the search thread becomes joinable and the writer prints everything and ends: with a writer the output is
+then exactly `writerOut` of all emitted events, `bestmove` included.  So every `go` whose search ends is answered before,
+and independently of, the next command; `wait_cancel` (at the next `go`/`position`/`stop`/`quit`) only waits for it. -/
+theorem Threads_search_answers (writer timer : Bool) (e : Exec (step true (μ := μ) (π := π)))
+    (h0 : e.st 0 = init writer timer) (hfair : ∀ a : Act μ π, a.fair = true → WeakFair e a)
+    (i : Nat) (ht : Triggered (e.st i)) :
+    ∃ j, i ≤ j ∧ (e.st j).s = .done ∧ ((e.st j).w = .done ∨ (e.st j).w = .absent) ∧
+      (writer = true → (e.st j).w = .done ∧ (e.st j).printed = writerOut (e.st j).emitted) := by
+  obtain ⟨j, hj, h⟩ := triggered_leadsTo_answered e (h0 ▸ inv_init true writer timer) hfair i ht
+  have hr := exec_reachable e h0 j
+  have hi := inv_reachable hr
+  rcases h with ⟨hs, hw⟩ | h
+  · refine ⟨j, hj, hs, hw, fun hwr => ?_⟩
+    have hwd : (e.st j).w = .done := by
+      rcases hw with hw | hw
+      · exact hw
+      · rw [(writer_reachable hr).1 hw] at hwr; cases hwr
+    exact ⟨hwd, (printed_done hi hwd).2.2⟩
+  · exact absurd h (hi.aborted rfl)
+
 /-! ## 3. at most one `bestmove`, all of it before `wait_cancel` returns -/
 
 /-- **Threads_bestmove_at_most_once.**  At most one `bestmove` line per search, in every reachable state. -/
@@ -234,6 +283,29 @@ theorem Threads_bestmove_is_last_best {f8 writer timer : Bool} {s : St μ π} (h
     cases hh : line.head? with
     | none => rw [hh] at hm'; cases hm'
     | some m' => rw [hh] at hm'; simp only [Option.toList_some, List.mem_singleton] at hm'; rw [hm']
+
+/-- **Threads_bestmove_exactly_one.**  Under the engine's guarantee that reported lines are never empty
+(`analyze_iterative` skips an empty line: both `BestMove` sites are guarded), when `wait_cancel` of a search with a
+writer has returned: EXACTLY one `bestmove` has been printed iff the search emitted some `BestMove` event, none
+otherwise. -/
+theorem Threads_bestmove_exactly_one {f8 timer : Bool} {s : St μ π} (h : Reachable f8 true timer s)
+    (hm : s.m = .returned) (hne : ∀ line p, Ev.best line p ∈ s.emitted → line ≠ []) :
+    ((∃ line p, Ev.best line p ∈ s.emitted) → ∃ m, bestmoves s.printed = [m]) ∧
+    ((∀ line p, Ev.best line p ∉ s.emitted) → bestmoves s.printed = []) := by
+  have hw := ((Threads_bestmove_before_return h hm).2.2.2 rfl).1
+  have hb := (Threads_bestmove_is_last_best h).2 hw
+  constructor
+  · rintro ⟨line, p, hmem⟩
+    cases hl : lastBestEvent s.emitted with
+    | none => exact absurd hmem (lastBestEvent_none.1 hl line p)
+    | some l =>
+      obtain ⟨p', hp'⟩ := lastBestEvent_some hl
+      cases l with
+      | nil => exact absurd rfl (hne [] p' hp')
+      | cons m r => exact ⟨m, by rw [hb, hl]; rfl⟩
+  · intro hno
+    rw [hb, lastBestEvent_none.2 hno]
+    rfl
 
 /-! ## 5. the event receiver dropped at any time -/
 
@@ -462,6 +534,19 @@ theorem Threads_refines_session {ν : Type} (A : Answers ν) {timer : Bool}
     exact Transcript.start d mt reuse p hreuse hA (hjoin _)
   · rw [← List.flatMap_append, hl, hev, render_writerOut]
 
+/-- a search that emits `Progress` and `BestMove (e2e4 e7e5)`, stopped by M while it runs (the events, as `Search.Event`s) -/
+def exEvents : List Search.Event := [.progress 1 20, .best 35 [(302018753 : UInt32), 33592129]]
+
+def exActs : List (Act Move Search.Event) :=
+  [.sEmit (toEv (.progress 1 20)), .wRecv, .sEmit (toEv (.best 35 [(302018753 : UInt32), 33592129])), .mCall, .cRecv,
+   .cCancel, .sNotice, .sSendStop, .sDropSink, .sDropTx3, .sFinish, .cJoin, .mJoinC, .wRecv, .wClosed, .wTail, .mJoinW]
+
+/-- the hypotheses of `Threads_refines_session` are satisfiable, and the rendered output is what one expects -/
+example : ∃ s : St Move Search.Event, runActs true (init true true) exActs = some s ∧ s.m = .returned ∧
+    s.emitted = exEvents.map toEv ∧
+    s.printed.flatMap render = [.infoTime 1 20, .infoScore 35, .infoPv ["e2e4", "e7e5"], .bestmove "e2e4"] :=
+  ⟨_, rfl, rfl, rfl, by decide +kernel⟩
+
 end session
 
 /-! ## non-vacuity: concrete runs, kernel-checked
@@ -611,19 +696,24 @@ example : ∃ s : St Nat Unit, runActs true (init false false) runDirect = some 
     s.m = .returned :=
   ⟨(runActs true (init false false) runDirect).get (by decide +kernel), by simp, by decide +kernel, by decide +kernel⟩
 
-/-- a weakly fair execution in which M waits exists (the hypotheses of `Threads_wait_cancel_returns`): `runStopDuring`
+/-- a weakly fair execution in which M waits exists (the hypotheses of `Threads_wait_cancel_returns` and of `Threads_search_answers`): `runStopDuring`
 followed by stuttering — in its final state no guaranteed action is enabled -/
 example : ∃ (e : Exec (step true (μ := Nat) (π := Unit))), e.st 0 = init true true ∧
-    (∀ a : A0, a.fair = true → WeakFair e a) ∧ ((e.st 2).m = .joinC) := by
+    (∀ a : A0, a.fair = true → WeakFair e a) ∧ ((e.st 2).m = .joinC) ∧ Triggered (e.st 2) := by
   have hrun : runList (step true) (init true true) runStopDuring =
       some ((runActs true (init true true) runStopDuring).get (by decide +kernel)) := by
     rw [← runActs_eq_runList]; simp
-  refine ⟨Exec.ofRun (step true) (init true true) runStopDuring (by rw [hrun]; rfl), stAt_zero _ _ _, ?_, ?_⟩
+  refine ⟨Exec.ofRun (step true) (init true true) runStopDuring (by rw [hrun]; rfl), stAt_zero _ _ _, ?_, ?_, ?_⟩
   · intro a ha
     apply Exec.ofRun_fair (step true) (init true true) _ runStopDuring hrun
     cases a <;> first | (cases ha; done) | decide +kernel
   · show (stAt (step true) (init true true) runStopDuring 2).m = .joinC
     decide +kernel
+  · refine Or.inr (Or.inr (Or.inr ⟨?_, ?_⟩))
+    · show (stAt (step true) (init true true) runStopDuring 2).c = .recv
+      decide +kernel
+    · show 0 < (stAt (step true) (init true true) runStopDuring 2).q2
+      decide +kernel
 
 end runs
 
